@@ -32,7 +32,19 @@ func VH_C12_StartGame() {
 	w, _ := vhStartWorld()
 	te := w.te
 	b := *te.table.State.BlindState
+	// the hand engine may refuse to create the hand (fault, or e.g. a dealt-in player without chips)
+	w.bk.faults = true
+	w.bk.tagN = 0
+	st0, gb0 := te.table.State.Status, te.table.State.GameBlindState
 	err := te.startGame()
+	if verifrt.BoolI("bk.fail", 0) {
+		verifrt.Reach("creation refused")
+		verifrt.Assert(err == vhErrBackend, "a refused creation is reported to the caller")
+		verifrt.Assert(te.table.State.Status == st0, "the table is flagged as playing only once the hand was really started")
+		verifrt.Assert(te.table.State.GameBlindState == gb0 && te.table.State.GameState == nil, "a hand that could not be started publishes nothing")
+		verifrt.Reach("end")
+		return
+	}
 	verifrt.Assert(err == nil, "startGame succeeds with a working backend")
 	verifrt.Assert(len(w.bk.calls) == 1 && w.bk.calls[0].kind == "create", "exactly one CreateGame call")
 	opts := w.bk.calls[0].opts
